@@ -131,6 +131,16 @@ class Tap(object):
                 utils.set_thread_local(n, v)
             auth_ctx.set_ctx(my_ctx)
 
+    def nested(self, fn, inject_at=None, injector=None):
+        """run fn as a tapped script INSIDE an interferer (a third process racing the second)"""
+        saved = (self.log, self.inject_at, self.injector, self.injected, self.in_intf, self.active)
+        self.log, self.inject_at, self.injector, self.injected = [], inject_at, injector, False
+        self.in_intf, self.active = False, True
+        try:
+            return fn(), self.log
+        finally:
+            (self.log, self.inject_at, self.injector, self.injected, self.in_intf, self.active) = saved
+
     def start(self, inject_at=None, injector=None):
         self.log = []
         self.inject_at = inject_at
@@ -325,7 +335,8 @@ def norm_writes(ws):
     """consecutive flushes are one pending-write set issued in pieces (autoflush before a query)"""
     out = []
     for x in ws:
-        if x == 'flush' and out and out[-1] == 'flush':
+        if x in ('flush', 'cas:0') and out and out[-1] == x:
+            # (a lost update_on_match is retried `attempts` times: the same compare-and-swap again)
             continue
         out.append(x)
     return out
@@ -495,3 +506,156 @@ def run_chunk(ctx, family='wf', scenarios=None, interferers=None):
         run_wf_cases(ctx, scenarios, interferers)
     else:
         run_cron_cases(ctx)
+
+
+# =====================================================================================
+# cron trigger row: N processors running the real advance_cron_trigger on the same read copy
+# =====================================================================================
+CRON_SCENARIOS = {
+    # name: (count, generated script)
+    'last': (1, 'advanceLast'),
+    'next': (3, 'advanceNext'),
+    'unlimited': (None, 'advanceNext'),
+}
+
+
+class CronWorld(object):
+    def __init__(self):
+        from harness import cron_driver as CD
+        self.CD = CD
+        self.w = CD.world()
+        self.tap = tap()
+        self.tap.watch(self.w.models.CronTrigger, CRON_TABLE, 'next_execution_time')
+
+    def prepare(self, count, nprocs):
+        """one trigger, due; every processor holds its own copy read by the real due query"""
+        w = self.w
+        w.clean()
+        w.now = 1000
+        err = w.create({'name': 't0', 'project': 'projA', 'input': {'a': 1}, 'params': {},
+                        'pattern': '*/5 * * * *', 'first': None, 'count': count})
+        if err:
+            raise RuntimeError('create_cron_trigger: %s' % err)
+        rows = w.rows()
+        w.now = rows[0]['next'] + 7
+        copies = []
+        for _ in range(nprocs):
+            w.auth_ctx.set_ctx(w.admin)
+            ts = w.triggers.get_next_cron_triggers()
+            if len(ts) != 1:
+                raise RuntimeError('due query returned %d triggers' % len(ts))
+            copies.append(ts[0])
+        return rows[0], copies
+
+    def advance(self, t):
+        """the real advance_cron_trigger under the context process_cron_triggers_v2 sets"""
+        w = self.w
+        w.auth_ctx.set_ctx(w.auth_ctx.MistralContext(user_id=None, project_id=t.project_id,
+                                                     auth_token=None, is_admin=False))
+        try:
+            return bool(w.real_advance(t))
+        finally:
+            w.auth_ctx.set_ctx(w.admin)
+
+    def run(self, count, gaps):
+        """gaps = [g0, g1, ..]: processor i+1 runs entirely at statement ordinal g_i of processor i
+        (nested); the last processor runs alone.  Returns won flags, logs, final rows."""
+        n = len(gaps) + 1
+        row0, copies = self.prepare(count, n)
+        won = [None] * n
+        logs = [None] * n
+        vars_ = []
+        for t in copies:
+            rem = t.remaining_executions
+            rem2 = rem - 1 if (rem is not None and rem > 0) else rem
+            nxt = self.w.real_next(t.pattern, max(self.CD.to_dt(self.w.now), t.next_execution_time))
+            vars_.append([self.CD.to_t(t.next_execution_time), rem2, self.CD.to_t(nxt)])
+
+        def runner(i):
+            def go():
+                won[i] = self.advance(copies[i])
+            if i == n - 1:
+                return lambda: self.tap.nested(go)
+            return lambda: self.tap.nested(go, inject_at=gaps[i], injector=inner(i + 1))
+
+        def inner(i):
+            def f():
+                _, logs[i] = runner(i)()
+            return f
+        self.tap.start()
+        try:
+            _, logs[0] = runner(0)()
+        finally:
+            self.tap.stop()
+        return {'row0': row0, 'rows': self.w.rows(), 'won': won, 'logs': logs, 'vars': vars_}
+
+
+def cron_row(r):
+    return {'alive': True, 'f': [r['next'], r['rem']]}
+
+
+def run_cron_cases(ctx, stream='race-cron'):
+    from vlib import core
+    from translate import race_scripts
+    try:
+        scripts, _ = race_scripts.scripts(core.REPO)
+    except Exception:
+        scripts = None
+    W = CronWorld()
+    drv = ctx.driver() if scripts is not None else None
+    for scen, (count, sname) in CRON_SCENARIOS.items():
+        # the uninterfered statement sequence gives the positions
+        solo = W.run(count, [])
+        sig = significant(solo['logs'][0])
+        npos = len(sig)
+        for nprocs in (2, 3):
+            import itertools
+            for gaps in itertools.product(range(npos), repeat=nprocs - 1):
+                ords = [sig[g]['n'] for g in gaps]
+                r = W.run(count, ords)
+                case = {'family': 'cron', 'script': sname, 'scenario': scen, 'count': count,
+                        'processors': nprocs, 'positions': list(gaps),
+                        'statements': [sig[g]['sql'][:50] for g in gaps]}
+                ctx.count(stream, 'scenario:' + scen)
+                ctx.count(stream, 'processors:%d' % nprocs)
+                ctx.evaluated(stream, [scen, nprocs, list(gaps)], nontrivial=True)
+                wins = sum(1 for x in r['won'] if x)
+                ctx.count(stream, 'wins:%d' % wins)
+                real = {'won': r['won'], 'rows': [[x['next'], x['rem']] for x in r['rows']],
+                        'writes': [norm_writes(writes(l)) for l in r['logs']]}
+                # monitor: at most one start per (trigger, next_execution_time); never more than count
+                if wins > 1:
+                    ctx.violation(
+                        '%d processors holding the same copy of a cron trigger (next_execution_time=%s, '
+                        'remaining=%s) all won advance_cron_trigger: the occurrence would be started %d times'
+                        % (wins, r['row0']['next'], r['row0']['rem'], wins),
+                        dict(case, kind='race', real=real),
+                        {'kind': 'occurrence-won-twice', 'script': sname})
+                if count == 1 and r['rows']:
+                    ctx.violation('the trigger row survived its last occurrence', dict(case, kind='race', real=real),
+                                  {'kind': 'last-occurrence-row-kept', 'script': sname})
+                if drv is None:
+                    continue
+                n0 = len(scripts[sname])
+                # processor i runs statements [0, g_i), then i+1 .., then the rest (+ commit steps)
+                stmt_idx = [i for i, s in enumerate(scripts[sname]) if s[0] in ('read', 'cas', 'delete')]
+                if len(stmt_idx) != npos:
+                    ctx.disagree(stream, dict(case, shape=True), stmt_idx, [e['kind'] for e in sig])
+                    continue
+                sched = []
+                for i, g in enumerate(gaps):
+                    sched += [i] * stmt_idx[g]
+                sched += [nprocs - 1] * (n0 + 2)
+                for i in reversed(range(nprocs - 1)):
+                    sched += [i] * (n0 + 2)
+                m = drv.call('race.many', {'row': cron_row(r['row0']),
+                                           'procs': [{'script': sname, 'vars': v} for v in r['vars']],
+                                           'sched': sched})
+                mod = {'won': [p['won'] for p in m['procs']],
+                       'rows': [m['db']['f']] if m['db']['alive'] else [],
+                       'writes': [[t for t in p['trace'] if t != 'select'] for p in m['procs']]}
+                if not all(p['done'] for p in m['procs']):
+                    ctx.disagree(stream, case, 'model schedule did not finish every processor', m['procs'])
+                elif real != mod:
+                    ctx.disagree(stream, case, mod, real)
+                ctx.sample({'stream': stream, 'case': case, 'real': real})
